@@ -15,8 +15,8 @@ func RunBubble(t *testing.T, f func()) (problem string) {
 	defer func() {
 		if r := recover(); r != nil {
 			msg := fmt.Sprint(r)
-			if strings.Contains(msg, "deadlock") || strings.Contains(msg, "blocked goroutines") {
-				return
+			if strings.Contains(msg, "blocked goroutines remain") {
+				return // the bubble's root returned while parked tasks remain: expected
 			}
 			problem = msg
 		}
